@@ -80,6 +80,23 @@ def run(ck):
                               "replay": "echo 'x hist <ops joined by ; with , between fields>' | harness/drv.cpp built with the flags above against /repo"})
                 break
     dist["sequence-in-one-process/altered-copy-after-acceptance"] = len(hl_)
+    # the file GREW after its size was measured: verify / decrypt are told the old size (it is documented as progress information
+    # only) - the appended bytes are part of the file and must make the tag fail
+    sl = []
+    for j, (c, f) in enumerate(files):
+        for k, ext in enumerate((rnd_bytes(r, 16), f[-16:], rnd_bytes(r, 1), rnd_bytes(r, 64))):
+            for op in ("ver", "dec"):
+                sl.append("st%d_%d%s %s %d %s %s fsize=%d" % (j, k, op[0], op, c.T, c.key.hex(), (f + ext).hex(), len(f)))
+    so = wv.run_lines([exe], sl, env=env)
+    for l in sl:
+        cid = l.split()[0]
+        head, kv = split_impl(so.get(cid, "(no output)"))
+        ck.cov["evaluations"] += 1
+        if not head.startswith("FAIL") or kv.get("outlen", "0") != "0":
+            ck.violation("a file extended after its size was measured (the operation is told the OLD size) was not rejected: %s" % head[:30],
+                         {"class": None, "case": l[:4000], "implementation": so.get(cid, "")[:300], "driver_flags": ck.impl_flags, "replay": "echo '<case>' | harness/drv.cpp built with the flags above against /repo"})
+            break
+    dist["extended-file/stale-announced-size"] = len(sl)
     ck.cov["distinct_nontrivial"] = len(distinct)
     ck.cov["files"] = len(files)
     ck.cov["disagreements_model_vs_impl"] = corr
